@@ -235,21 +235,51 @@ def rename(p, st=None):
     return ["map", ents, name() if p[2] is not None else None]
 
 
+def lean2():
+    return [["vec", [S_], S_, "_"], ["map", [["ent", S_, KEYS["sym"], "const"]], "_"]]
+
+
+ALL_SITES = ("let", "fn", "loop", "rest")
+# family -> (binding sites, sites at which the macroexpansion is compiled and compared as well)
+PLAN = {
+    "quick": {
+        "depth0": (ALL_SITES, ALL_SITES),
+        "depth1-small": (ALL_SITES, ALL_SITES),
+        "effects": (ALL_SITES, ALL_SITES),
+        "depth1-pairs": (("let", "fn"), ("let",)),
+        "depth2-allctx": (ALL_SITES, ("let",)),
+        "depth2-ctx16": (("let",), ()),
+    },
+    "thorough": {
+        "depth0": (ALL_SITES, ALL_SITES),
+        "depth1-small": (ALL_SITES, ALL_SITES),
+        "effects": (ALL_SITES, ALL_SITES),
+        "depth1-pairs": (ALL_SITES, ALL_SITES),
+        "depth2-allctx": (ALL_SITES, ("let",)),
+        "depth2-ctx16": (ALL_SITES, ("let",)),
+        "depth3-ctx16": (("let",), ("let",)),
+        "depth3-lean": (("let",), ()),
+    },
+}
+
+
 def pattern_universe(tier):
-    """[(family, pattern)] simplest first, distinct by text."""
-    fams = [("depth0", [S_]), ("depth1", rich1())]
-    d2 = [fill(c, [p]) for c in ctx16() for p in mid1()]
-    d2 += [fill(c, [p]) for c in allctx() for p in lean4()]
-    d2 += [fill(c, [p, q]) for c in twohole() for p in lean1() for q in lean1()]
+    """[(family, pattern)] simplest first, distinct by text (a pattern belongs to the first family that produces it)."""
+    fams = [("depth0", [S_]), ("depth1-small", mid1()), ("depth1-pairs", rich1())]
+    if tier == "quick":
+        d2a = [fill(c, [p]) for c in allctx() for p in lean2()]
+        d2a += [fill(c, [p, q]) for c in twohole() for p in lean1() for q in lean1()]
+        d2b = [fill(c, [p]) for c in ctx16() for p in mid1()]
+    else:
+        d2a = [fill(c, [p]) for c in allctx() for p in mid1()]
+        d2a += [fill(c, [p, q]) for c in twohole() for p in lean1() for q in lean1()]
+        d2b = [fill(c, [p]) for c in ctx16() for p in rich1()]
+    fams += [("depth2-allctx", d2a), ("depth2-ctx16", d2b)]
     if tier == "thorough":
-        d2 += [fill(c, [p]) for c in allctx() for p in mid1()]
-        d2 += [fill(c, [p]) for c in ctx16() for p in rich1()]
-    fams.append(("depth2", d2))
-    if tier == "thorough":
-        d3 = [fill(c, [fill(c2, [p])]) for c in ctx16() for c2 in ctx16() for p in mid1()]
-        d3 += [fill(c, [fill(c2, [p])]) for c in ctxlean6() for c2 in ctxlean6() for p in rich1()]
-        d3 += [fill(c, [fill(c2, [p])]) for c in allctx() for c2 in ctxlean6() for p in lean4()]
-        fams.append(("depth3", d3))
+        d3a = [fill(c, [fill(c2, [p])]) for c in ctx16() for c2 in ctx16() for p in mid1()]
+        d3a += [fill(c, [fill(c2, [p])]) for c in allctx() for c2 in ctxlean6() for p in lean4()]
+        d3b = [fill(c, [fill(c2, [p])]) for c in ctxlean6() for c2 in ctxlean6() for p in rich1()]
+        fams += [("depth3-ctx16", d3a), ("depth3-lean", d3b)]
     seen = set()
     out = []
     for fam, ps in fams:
@@ -282,7 +312,7 @@ def effect_universe():
 # ============================================================================================================================
 
 _D: dict = {}
-SITES = ("let", "fn", "loop", "rest")
+SITES = ALL_SITES
 
 
 def d_state():
@@ -475,6 +505,10 @@ def get_universe(kind, tier):
     return _UNI[(kind, tier)]
 
 
+def site_plan(tier, fam):
+    return PLAN[tier][fam]
+
+
 def d_shard(arg):
     tier, idx, n = arg
     res = Result()
@@ -482,8 +516,8 @@ def d_shard(arg):
     mine = uni[idx::n]
     counts: dict = {}
     for fam, p in mine:
-        expand_sites = SITES if not (tier == "thorough" and fam == "depth3") else ("let",)
-        check_pattern(res, fam, p, expand_sites=expand_sites)
+        sites, expand_sites = site_plan(tier, fam)
+        check_pattern(res, fam, p, sites=sites, expand_sites=expand_sites)
         counts[fam] = counts.get(fam, 0) + 1
     for fam, c in counts.items():
         res.part(f"destructure/{fam}", patterns=c)
@@ -506,7 +540,7 @@ EXTRA = [
     ["uq", ["inner", "x"]], ["const", ":k"], ["const", '"s"'], ["const", "nil"],
 ]  # fmt: skip
 SIB3 = [["gs", "x"], ["splice", 0], ["sym", "loc"]]
-SIB4 = SIB3 + [["uq", ["param", 0]]]
+SIB2 = [["gs", "x"], ["splice", 0]]
 LEANL = [["sym", "loc"], ["gs", "x"], ["uq", ["param", 0]], ["splice", 0]]
 TYPES = ("list", "vec", "set", "map")
 
@@ -579,12 +613,13 @@ def template_universe(tier):
         d1 += colls(MAIN, (3,), ("list", "vec", "set")) + colls(LEANL + [["sym", "vector"], ["const", "7"]], (4,), ("map",))
     fams.append(("depth1", d1))
     inner110 = colls(MAIN, (0, 1)) + colls(LEANL, (2,))
-    d2 = [tfill(c, i) for c in contexts(SIB4) for i in inner110]
-    if tier == "thorough":
-        d2 += [tfill(c, i) for c in contexts(MAIN) for i in colls(MAIN, (0, 1, 2))]
+    if tier == "quick":
+        d2 = [tfill(c, i) for c in contexts(SIB2) for i in inner110]
+    else:
+        d2 = [tfill(c, i) for c in contexts(MAIN) for i in colls(MAIN, (0, 1, 2))]
     fams.append(("depth2", d2))
     if tier == "thorough":
-        cs = contexts(SIB4)
+        cs = contexts(SIB2)
         fams.append(("depth3", [tfill(c, tfill(c2, i)) for c in cs for c2 in cs for i in inner110]))
     seen = set()
     out = []
@@ -780,15 +815,15 @@ def check_template(res, fam, t, only=None, batch=None):
             # ---- hygiene: evaluate the form as code in C
             if vi == 0 and not reread:
                 try:
-                    want = sq.evaluate(exp, lookup_var_with_zzz(state))
+                    want = realize(sq.evaluate(exp, lookup_var_with_zzz(state)))
                 except sq.NotEvaluable:
                     continue
-                except Exception:  # noqa: the reference value itself is an error (e.g. wrong arity): nothing to compare
+                except Exception:  # noqa: the reference value itself is an error (e.g. `(first 7)`): nothing to compare
                     continue
                 zzz = sym.symbol("zzz")
                 runtime.Var.intern(state["ns"], zzz, st["zzz_fn"][state["ns"].name])
                 try:
-                    got = env.Evaluator(ns=C).eval_form(real)
+                    got = realize(env.Evaluator(ns=C).eval_form(real))
                     got_exc = None
                 except Exception as e:  # noqa
                     got, got_exc = None, f"{type(e).__name__}: {str(e)[:120]}"
@@ -798,6 +833,16 @@ def check_template(res, fam, t, only=None, batch=None):
                 res.part("syntax-quote/evaluated-in-foreign-ns", cases=1)
                 if got_exc or not (type(got) is type(want) and env.core_fn("=")(got, want)):
                     res.fail("hygiene", case, got=got_exc or brief(got), expected=brief(want), form=brief(real))
+
+
+def realize(x):
+    """Force lazy seqs (an error hidden in one surfaces here)."""
+    from basilisp.lang import list as llist
+    from basilisp.lang.interfaces import ISeq
+
+    if isinstance(x, ISeq):
+        return llist.list([realize(y) for y in x])
+    return x
 
 
 def lookup_var_with_zzz(state):
